@@ -1,5 +1,8 @@
+//@ variant: slot0 SLOT=0
+//@ variant: slot1 SLOT=1
 //@ tu: libxcm/ctl/ctl.c
 //@ enforce: client_send
+//@ defs: -DXV_CTL_SLOT=$SLOT
 //@ props: C14
 //@ expect: postcondition>=3 canary=3
 #include "_unit.h"
@@ -8,7 +11,9 @@ void harness(void)
     xv_ghost_havoc();
     xv_ctl_ghost_havoc();
     xv_ctl_g_foreign = nondet_bool(); xv_ctl_g_fev = nondet_int();
-    struct client *client = NULL;   /* (not left uninitialised: symex would add a 38 KB "unknown object" of type struct client to its points-to set; pointer_in_range in the contract assigns it) */
+    static char dummy[8];
+    struct client *client = (struct client *)dummy;   /* any valid address (pointer_equals in the contract re-assigns it); left uninitialised,
+        symex adds a 38 KB "unknown object" of type struct client to the points-to set of every access through it */
     struct ctl *ctl;
     int rv = client_send(client, ctl);
     if (rv == 0 && xv_ctl_send_rc >= 0) XV_CANARY("reply sent");
